@@ -210,6 +210,8 @@ pub fn cfg_for(driver: &str, tier: &str) -> Option<(Cfg, u32)> {
             c.depth = if q { 4 } else { 6 };
             c.top_cause2 = true;
             c.top_release = true;
+            c.top_dup = true;
+            c.defer_release = true;
             c.end_order_choice = true;
             c.cb_remove = true;
             c.cb_cause = false;
